@@ -37,6 +37,13 @@ pub(crate) fn create_task_mapping(
         let rq = request_map.get(resource_rq_id).get(v_id);
         let sum = counts.iter().map(|(_, c)| c).sum::<u32>();
         let tasks = task_queues.get_mut(resource_rq_id).take_tasks(sum);
+        #[cfg(it4innovations_hyperqueue_verif)]
+        crate::verif::sched::record(crate::verif::sched::Record::Sn {
+            rq: resource_rq_id.as_num(),
+            variant: v_id.as_num() as u32,
+            counts: counts.iter().map(|(w, c)| (w.as_num(), *c)).collect(),
+            taken: tasks.clone(),
+        });
         let mut task_idx = 0;
         if !tasks.is_empty() {
             'outer: loop {
@@ -132,6 +139,14 @@ pub(crate) fn create_task_mapping(
     });
 
     for ((resource_rq_id, _), worker_sets) in solution.mn_workers {
+        #[cfg(it4innovations_hyperqueue_verif)]
+        crate::verif::sched::record(crate::verif::sched::Record::Mn {
+            rq: resource_rq_id.as_num(),
+            sets: worker_sets
+                .iter()
+                .map(|ws| ws.iter().map(|w| w.as_num()).collect())
+                .collect(),
+        });
         for workers in worker_sets {
             let task_id = task_queues.get_mut(resource_rq_id).take_one().unwrap();
             log::debug!(
@@ -213,6 +228,11 @@ fn process_proactive_filling(core: &mut Core, mapping: &mut WorkerTaskMapping) {
         if prefill_size == 0 {
             continue;
         }
+        #[cfg(it4innovations_hyperqueue_verif)]
+        crate::verif::sched::record(crate::verif::sched::Record::PrefillOrder {
+            rq: queue.resource_rq_id.as_num(),
+            workers: workers.iter().map(|w| w.id.as_num()).collect(),
+        });
         for worker in workers {
             let mut tasks = queue.take_tasks_for_prefill(prefill_size);
             tasks.retain(|task_id| {
